@@ -1059,16 +1059,18 @@ impl AsLogicalPlan for LogicalPlanNode {
                     union.inputs.len() >= 2,
                     "Protobuf deserialization error, Union requires at least two inputs."
                 );
-                let (first, rest) = union.inputs.split_first().unwrap();
-                let mut builder = LogicalPlanBuilder::from(
-                    first.try_into_logical_plan(ctx, extension_codec)?,
-                );
-
-                for i in rest {
-                    let plan = i.try_into_logical_plan(ctx, extension_codec)?;
-                    builder = builder.union(plan)?;
-                }
-                builder.build()
+                // keep the n-ary shape (EliminateNestedUnion flattens unions; folding
+                // pairwise would decode Union(a, b, c) as Union(Union(a, b), c))
+                let inputs = union
+                    .inputs
+                    .iter()
+                    .map(|i| i.try_into_logical_plan(ctx, extension_codec).map(Arc::new))
+                    .collect::<Result<Vec<_>>>()?;
+                Ok(LogicalPlan::Union(
+                    datafusion_expr::logical_plan::Union::try_new_with_loose_types(
+                        inputs,
+                    )?,
+                ))
             }
             LogicalPlanType::CrossJoin(crossjoin) => {
                 let left = into_logical_plan!(crossjoin.left, ctx, extension_codec)?;
